@@ -7,6 +7,8 @@ import (
 	"io"
 	"net/http"
 	"net/http/httptest"
+	"os"
+	"path/filepath"
 	"strings"
 	"testing"
 
@@ -73,7 +75,7 @@ func genC18(t *rapid.T) *C18Case {
 		rem := total
 		for rem > 0 {
 			n := rapid.IntRange(1, rem).Draw(t, "chunk")
-			kind := rapid.SampledFrom([]string{"write", "write", "readfrom"}).Draw(t, "wkind")
+			kind := rapid.SampledFrom([]string{"write", "write", "readfrom", "readfromfile"}).Draw(t, "wkind")
 			c.Writes = append(c.Writes, C18Write{Kind: kind, N: n})
 			rem -= n
 			if rapid.IntRange(0, 2).Draw(t, "flush") == 0 {
@@ -82,6 +84,11 @@ func genC18(t *rapid.T) *C18Case {
 		}
 		if total == 0 && rapid.Bool().Draw(t, "emptywrite") {
 			c.Writes = append(c.Writes, C18Write{Kind: "write", N: 0})
+		}
+	}
+	for _, wr := range c.Writes {
+		if wr.Kind == "readfromfile" && rapid.Bool().Draw(t, "serverforfile") {
+			c.UseServer = true // net/http's own ReadFrom (sendfile) path exists only on a real connection
 		}
 	}
 	if c.Code == 0 && len(c.Writes) == 0 {
@@ -171,6 +178,26 @@ func (c *C18Case) run() (*c18Result, *Failure) {
 				} else {
 					_, _ = rw.Write(chunk)
 				}
+				off += wr.N
+			case "readfromfile":
+				// what http.ServeContent / io.Copy from a file do: the reader is an *os.File, plain or length-limited
+				chunk := patternBytes(off+wr.N, 11)[off:]
+				res.handlerWrote = append(res.handlerWrote, chunk...)
+				name := filepath.Join(privateTmp, fmt.Sprintf("c18-body-%d-%d", os.Getpid(), off))
+				_ = os.WriteFile(name, chunk, 0o644)
+				if fh, err := os.Open(name); err == nil {
+					var src io.Reader = fh
+					if wr.N%2 == 0 {
+						src = &io.LimitedReader{R: fh, N: int64(len(chunk))}
+					}
+					if rf, ok := rw.(io.ReaderFrom); ok {
+						_, _ = rf.ReadFrom(src)
+					} else {
+						_, _ = io.Copy(rw, src)
+					}
+					_ = fh.Close()
+				}
+				_ = os.Remove(name)
 				off += wr.N
 			case "flush":
 				if fl, ok := rw.(http.Flusher); ok {
@@ -362,6 +389,12 @@ func checkC18(c *C18Case) Result {
 		out.Labels = append(out.Labels, "real-server")
 		if c.Chunked {
 			out.Labels = append(out.Labels, "chunked-request")
+		}
+	}
+	for _, wr := range c.Writes {
+		if wr.Kind == "readfromfile" && c.UseServer {
+			out.Labels = append(out.Labels, "file-reader-on-real-server")
+			break
 		}
 	}
 	if c.Code == 204 || c.Code == 304 {
